@@ -207,7 +207,7 @@ pub fn expect(n: usize, before: &[(u64, u32)], op: &Op, args: &[(u64, u32)]) -> 
             }
         }
         Op::Clear => ok(XRet::Unit, vec![]),
-        Op::Extend(_) => {
+        Op::Extend(_) | Op::ExtendHinted(..) => {
             // owned items: the very elements; keep last n of before ++ args
             let mut v = same();
             for a in args {
